@@ -31,6 +31,14 @@ let run_case (fuel : nat) (c : Sexp.t) : (string * Sexp.t * Sexp.t option) optio
     model_only (sexp_of_res (sexp_of_opt sexp_of_ss) (unify fuel (term_of a) (term_of b) (ss_of ss)))
   | L (A "useq" :: ss :: pairs) ->
     model_only (sexp_of_res (sexp_of_opt sexp_of_ss) (useq fuel (ss_of ss) pairs))
+  | L (A "useqr" :: ss :: t :: pairs) ->
+    (match useq fuel (ss_of ss) pairs with
+     | Ok (Some ss') ->
+       (match replace_variables fuel (term_of t) ss' with
+        | Ok t' -> model_only (L [A "ok"; L [A "some"; sexp_of_ss ss']; sexp_of_term t'])
+        | Panic -> model_only (A "panic")
+        | OutOfFuel -> model_only (A "fuel"))
+     | r -> model_only (sexp_of_res (sexp_of_opt sexp_of_ss) r))
   | L [A "replace"; t; ss] ->
     model_only (sexp_of_res sexp_of_term (replace_variables fuel (term_of t) (ss_of ss)))
   | L [A "bip"; A name; ts; ss] ->
